@@ -681,6 +681,12 @@ func (p *RPCCompiler) buildRequiredFieldsMessage(inputMessage Message, rpcMessag
 
 	representations := representationsValue.Array()
 	for _, representation := range representations {
+		// Like the entity lookup itself: representations of other entity types do not carry
+		// the required fields and are not part of this call.
+		if !isAllowedForTypename(keyField.Message, representation) {
+			continue
+		}
+
 		element := contextList.NewElement()
 		msg := element.Message()
 
